@@ -153,10 +153,15 @@ def call_value(fr, fv, args, kw, extra, n):
     if fv[0] == 'builtin':
         return builtin_value(fr, fv[1], args, kw, n)
     if fv[0] == 'lambda' and fv[1] in fr.ctx.lambdas and not kw and not extra:
-        node, captured, mod_ = fr.ctx.lambdas[fv[1]]
+        node, captured, mod_, owner = fr.ctx.lambdas[fv[1]]
         names = [a.arg for a in node.args.args]
+        dflt = fr.ctx.__dict__.get('lambda_defaults', {}).get(fv[1], {})
+        if len(args) < len(names) and all(nm in dflt for nm in names[len(args):]):
+            args = list(args) + [dflt[nm] for nm in names[len(args):]]
         if len(names) == len(args):
             saved_env, saved_mod = fr.env, fr.mod
+            if owner == id(fr):
+                captured = fr.env           # called in the frame that defined it: free names are looked up now (late binding), not when it was written
             fr.env = dict(captured, **dict(zip(names, args)))
             fr.mod = mod_
             try:
@@ -198,7 +203,8 @@ def bind_args(fn, args, kw, extra, skip_self=False):
         else:
             problems.append(f'unexpected keyword argument {k!r}')
     if fn.kwarg:
-        bound[fn.kwarg] = ('dict', tuple(sorted(rest.items())))
+        # mappings of unknown keys passed with ** end up in the callee's **kwargs (next to whatever they may have bound before): kept, as in a {**d} display
+        bound[fn.kwarg] = ('dict', tuple(sorted(rest.items())) + tuple((('**', T.key(e)), e) for e in extra))
     for p in params + fn.kwonly:
         if p not in bound and p not in fn.defaults and not extra and not star:
             problems.append(f'missing argument {p!r}')
@@ -670,6 +676,9 @@ def external(fr, dotted, args, kw, extra, n):
             args, kw = positional_form([a.arg for a in node_.args.posonlyargs + node_.args.args], args, kw)
     guard, loops, where = fr.guard(), fr.loops, fr.where(n)
     a0 = args[0] if args else None
+    if extra and '**' not in kw:
+        kw = dict(kw)
+        kw['**'] = ('tuple', tuple(extra))          # f(..., **mapping) with a mapping whose keys are not known: part of the call, never dropped
 
     def ev(nm=None, **extra_):
         return ctx.event('call', nm or name, args, kw, guard=guard, loops=loops, where=where, extra=dict(dotted=dotted, **extra_))
@@ -780,6 +789,9 @@ def external(fr, dotted, args, kw, extra, n):
     if top == 'pandas':
         ctx.consulted.add('pandas.' + '.'.join(parts[1:]))
         tail = '.'.join(parts[1:])
+        if tail == 'Series' and len(args) == 1 and set(kw) <= {'index'} and (not kw or (kw['index'][0] == 'attr' and kw['index'][2] == 'index')):
+            # pd.Series(values[, index=<frame>.index]): the same values, labelled like the frame they were computed from (or 0..n-1): value preserving
+            return a0[1] if a0[0] == 'nd' else a0
         if tail == 'DataFrame.from_dict' and a0 is not None:
             if a0[0] == 'dict' and all(isinstance(k, str) for k, _ in a0[1]):
                 nrows = length(a0[1][0][1]) if a0[1] else C(0)
@@ -965,6 +977,10 @@ def method(fr, recv, recv_node, name, args, kw, extra, n):
             (tag == 'gamma' and any(x[0] == 'plotaxes' for x in T.walk(recv))):
         ctx.event('call', 'ax.' + name, (recv,) + tuple(args), kw, guard=guard, loops=loops, where=where)
         return T.call('ax.' + name, (recv,) + tuple(args), kw)
+    if tag == 'const' and isinstance(recv[1], str) and name == 'join' and len(args) == 1 and not kw:
+        seq = args[0][1] if args[0][0] == 'nd' else args[0]
+        if seq[0] in ('tuple', 'list') and all(T.isconst(e) and isinstance(e[1], str) for e in seq[1]):
+            return C(recv[1].join(e[1] for e in seq[1]))         # sep.join of an explicit sequence of constant strings
     # ---- methods of a constant string with constant arguments: evaluated (pure)
     if tag == 'const' and isinstance(recv[1], str) and name in PURE_STR_METHODS and not kw and all(T.isconst(a) and not isinstance(a[1], bool) or T.isconst(a) for a in args):
         try:
@@ -1006,6 +1022,12 @@ def method(fr, recv, recv_node, name, args, kw, extra, n):
         if tag == 'dict' and T.isconst(a0):
             v = dict(recv[1]).get(a0[1])
             return default if v is None else v
+        if tag == 'dict' and 0 < len(recv[1]) <= 4 and all(isinstance(k_, str) for k_, _ in recv[1]) and a0[0] in ('param', 'atom'):
+            # a small constant table looked up with an unknown key and a default: value of the first key it equals, else the default
+            out = default
+            for k_, v_ in reversed(recv[1]):
+                out = T.gamma(T.cmp_('Eq', a0, C(k_)), v_, out)
+            return out
         return ('dictget', recv, a0, default)
     if name == 'setdefault' and a0 is not None and tag in ('dict', 'param', 'dictdel', 'typed', 'idx', 'gamma', 'carried', 'valat', 'lv', 'arr'):
         default = args[1] if len(args) > 1 else NONE
@@ -1149,6 +1171,11 @@ def method(fr, recv, recv_node, name, args, kw, extra, n):
                 n_ *= d
             return ('shaped', recv[1] + '.flat', (n_,))
         return T.call('flatten', (recv,), kw)
+    if name == 'join' and recv[0] == 'table' and len(args) == 1 and not kw and args[0][0] == 'table' and recv[2] == args[0][2] \
+            and not set(dict(recv[1])) & set(dict(args[0][1])):
+        # df.join(other): two tables over the same rows (same row count term, both built in this function on the default index), disjoint column names:
+        # the columns side by side, as pd.concat((df, other), axis=1)
+        return ('table', tuple(sorted(dict(recv[1], **dict(args[0][1])).items())), recv[2])
     if name == 'reshape':
         shp = args[0][1] if len(args) == 1 and args[0][0] == 'tuple' else tuple(args)
         if not kw and recv[0] == 'nd' and recv[1][0] == 'list' and len(shp) == 2 and all(T.isnum(d) and isinstance(d[1], int) and d[1] >= 0 for d in shp) \
